@@ -567,6 +567,13 @@ def reset_with_evaluation(prog: Program) -> RuleResult:
     return r
 
 
+def _shared_default(prog):
+    # a default built at definition time is state carried from one evaluation to the next
+    from .shareddefault import shared_default
+
+    return shared_default(prog, ["entity_query_language.symbolic", "entity_query_language.entity", "entity_query_language.hashed_data", "entity_query_language.conclusion_selector", "entity_query_language.rule", "entity_query_language.conclusion"], 150)
+
+
 def run(prog: Program, tier: str) -> List[RuleResult]:
     c1 = carry1(prog)
-    return [c1, carry2(prog), ep_handshake(prog), domain_cache(prog), reset_with_evaluation(prog), carry_shared(prog, c1), carry_abandon(prog), carry_memo_up(prog), shared_tree(prog), carry_reset_reach(prog), carry_eval_parent(prog)]
+    return [c1, carry2(prog), ep_handshake(prog), domain_cache(prog), reset_with_evaluation(prog), carry_shared(prog, c1), carry_abandon(prog), carry_memo_up(prog), shared_tree(prog), carry_reset_reach(prog), carry_eval_parent(prog), _shared_default(prog)]
